@@ -168,6 +168,22 @@ Theorem C17_critical_paths_sum_ordered :
 Proof. exact critical_paths_sum_ordered. Qed.
 Print Assumptions C17_critical_paths_sum_ordered.
 
+(* independence of the topological order for every ordered domain (so also for float
+   delays): two orders of the same nets give, for every wire, times that are == *)
+Theorem C17_timing_order_independent_ordered :
+  forall (D : Type) (dzero : D) (dadd : D -> D -> D) (dleb : D -> D -> bool) (dneg : D -> bool)
+         nl1 nl2 (dl : net -> D),
+  ordered_delays D dadd dleb ->
+  wires nl1 = wires nl2 -> (forall n, In n (nets nl1) <-> In n (nets nl2)) ->
+  wfb nl1 = true -> wfb nl2 = true ->
+  (forall n, In n (nets nl1) -> dneg (dl n) = negb (is_comb (nop n)) /\ nargs n <> []) ->
+  forall w, In w (map wname (wires nl1)) ->
+  exists t1 t2, gassoc D (gtiming_map D dzero dadd dleb dneg nl1 dl) w = Some t1
+             /\ gassoc D (gtiming_map D dzero dadd dleb dneg nl2 dl) w = Some t2
+             /\ dleb t1 t2 = true /\ dleb t2 t1 = true.
+Proof. exact timing_order_independent_ordered. Qed.
+Print Assumptions C17_timing_order_independent_ordered.
+
 (* the integer model used by all the other theorems IS the generic model at D = Z *)
 Theorem C17_integer_model_is_instance : forall nl (dl : net -> Z) (cp_limit : Z),
   timing_map nl dl = gtiming_map Z 0 Z.add Z.leb zneg nl dl
